@@ -164,8 +164,11 @@ func hmExecSet(hm *HashMap, values []r.Element) (r.Element, error) {
 	}
 	// key name
 	keyName := values[0].(*String).value
-	hm.AppendKVPair(KVPair{keyName, values[1]})
-	return values[1], nil
+	// like a key assignment, the dictionary keeps its own copy of the value (so that a
+	// dictionary can never end up containing itself)
+	newValue := DuplicateValue(values[1])
+	hm.AppendKVPair(KVPair{keyName, newValue})
+	return newValue, nil
 }
 
 func hmExecDelete(hm *HashMap, values []r.Element) (r.Element, error) {
